@@ -9,7 +9,9 @@ EXTENDS LinkDest, TLC, Json, FiniteSets, SequencesExt
 CONSTANTS AllLen, CoreLen,      \* bounds on the number of blocks
           Excused,              \* kind names on which the model is known to deviate from the reference (findings
                                 \* demonstrated on the real code; documents containing one are not asserted here)
-          EscLen                \* escape pair: strings up to this length
+          EscLen,               \* escape pair: strings up to this length
+          Mode                  \* "gen": constant-level checks + export of the cases (no state exploration);
+                                \* "mc": state exploration only (kept apart: TLC's -coverage cannot hold the export)
 
 \* configurations: base URL, directory
 CfgMulti == Cfg(<<104,116,116,112,115,58,47,47,101,120,97,109,112,108,101,46,99,111,109,47,98,97,115,101,47>>,   \* https://example.com/base/
@@ -26,7 +28,7 @@ Allowed(doc, k) == \/ Len(doc) < AllLen
 VARIABLES doc, S, off
 vars == <<doc, S, off>>
 Init == doc = <<>> /\ S = S0 /\ off = 0
-Next == \E k \in 1..NK :
+Next == Mode = "mc" /\ \E k \in 1..NK :
           /\ Allowed(doc, k)
           /\ LET i == Len(doc) + 1
                  t == (IF i = 1 THEN <<>> ELSE Sep) \o BT[k][i] IN
@@ -60,31 +62,30 @@ TableConsistent ==
   \A k \in 1..NK : \A n \in 1..Len(Kinds[k].segs) :
      LET sg == Kinds[k].segs[n] u == RefUnescape(Concrete(sg.b, 1)) IN
      sg.c \in {"rel", "stay"} => DestDefined(u) /\ ((sg.c = "stay") <=> (RefClass(u) = "stay"))
-ASSUME TableConsistent
-ASSUME Len(Kinds) = Cardinality(KindNames)
 \* destination rewriting, every real destination of the table x every configuration x position 1..2
-RewriteAllCfgs ==
+\* (operators that are only needed in mode "gen" take a dummy argument: TLC evaluates every zero-argument
+\* constant definition when it starts, in every mode)
+RewriteAllCfgs(g) ==
   \A k \in 1..NK : \A n \in 1..Len(Kinds[k].segs) : \A c \in 1..Len(Cfgs) : \A i \in 1..2 :
      LET sg == Kinds[k].segs[n] d == Concrete(sg.b, i) rw == ImplRewrite(d, Cfgs[c]) IN
      sg.c \in {"rel", "stay"} =>
         /\ rw.ok <=> (sg.c = "rel")
         /\ rw.ok => RewriteOk(d, rw.repl, Cfgs[c]) /\ AbsAgainstBase(d, rw.repl, Cfgs[c])
         /\ rw.ok => ImplRewrite(rw.repl, Cfgs[c]).ok = FALSE              \* a rewritten destination is kept (idempotence)
-ASSUME RewriteAllCfgs
 \* escape pair of mdescape.go over the punctuation alphabet
 EscAlphabet == {92, 40, 41, 46, 97, 38, 34, 58, 96}          \* \ ( ) . a & " : `
 EscStrings == SeqsUpTo(EscAlphabet, EscLen)
-ASSUME \A u \in EscStrings : ImplUnescape(ImplURLEscape(u)) = u
+EscPairModel(g) == \A u \in EscStrings : ImplUnescape(ImplURLEscape(u)) = u
 
 (* ---- export ---- *)
-AllDocs == UNION {[1..n -> 1..NK] : n \in 1..AllLen} \cup UNION {[1..n -> CoreKinds] : n \in (AllLen + 1)..CoreLen}
+AllDocs(g) == UNION {[1..n -> 1..NK] : n \in 1..AllLen} \cup UNION {[1..n -> CoreKinds] : n \in (AllLen + 1)..CoreLen}
 Names(d) == [i \in 1..Len(d) |-> Kinds[d[i]].name]
 DocCase(id, d, cfg) == LET dd == Doc(d) IN
                        [id |-> id, k |-> "doc", kinds |-> Names(d), src |-> dd.src, spans |-> dd.spans,
                         base |-> cfg.base, dir |-> cfg.dir]
 \* (LET: TLC evaluates a LET-bound value once; a top-level definition applied to an index is re-evaluated)
-Cases ==
-  LET docSeq == SetToSeq(AllDocs)
+Cases(g) ==
+  LET docSeq == SetToSeq(AllDocs(g))
       escSeq == SetToSeq(EscStrings)
       nd == Len(docSeq)
       ns == NK * Len(Cfgs)
@@ -93,5 +94,9 @@ Cases ==
       single == [n \in 1..ns |-> DocCase(nd + n, <<((n - 1) % NK) + 1>>, Cfgs[((n - 1) \div NK) + 1])]
       esc == [n \in 1..Len(escSeq) |-> [id |-> nd + ns + n, k |-> "esc", u |-> escSeq[n]]] IN
   multi \o single \o esc
-ASSUME ndJsonSerialize("cases.ndjson", Cases)
+\* the export comes first: a failing model assumption below is a diagnostic, the cases are still replayed
+ASSUME Mode = "gen" => ndJsonSerialize("cases.ndjson", Cases(0))
+ASSUME Mode = "gen" => TableConsistent /\ Len(Kinds) = Cardinality(KindNames)
+ASSUME Mode = "gen" => RewriteAllCfgs(0)
+ASSUME Mode = "gen" => EscPairModel(0)
 =============================================================================
